@@ -4,3 +4,8 @@ import PqVerif.Props.C03
 #print axioms Pq.C03.samples_length
 #print axioms Pq.C03.frequencies_sum_to_one
 #print axioms Pq.C03.counts_sum
+#print axioms Pq.C03Chain.weights_sum
+#print axioms Pq.C03Chain.post_normalised
+#print axioms Pq.C03Chain.sequential_eq_joint
+#print axioms Pq.C03Chain.joint_zero_of_first_zero
+#print axioms Pq.C03Chain.final_branch_state
